@@ -82,7 +82,9 @@ S.update(S2)
 for key in sys.argv[1:]:
     p, n = key.split('-')
     src = '/tmp/wt_%s/mutants/%s' % (p, n)
-    if int(n) > 12:
+    if int(n) > 14:
+        src = '/tmp/wt_%s/mutants/%d' % (p, int(n) - 14)  # sixth wave: delivered as 1..2, kept as 15..16
+    elif int(n) > 12:
         src = '/tmp/wt_%s/mutants/%d' % (p, int(n) - 12)  # fifth wave: delivered as 1..2, kept as 13..14
     elif int(n) > 9:
         src = '/tmp/wt_%s/mutants/%d' % (p, int(n) - 9)  # fourth wave: delivered as 1..3, kept as 10..12
